@@ -44,6 +44,9 @@ DIRECTED = [
     ('resume', 1, [('Accept', 0, 'valid', 0), ('Ready', 1, '', 0), ('Notify', 1, 'tx', 0), ('Notify', 2, 'upd', 0), ('Notify', 2, 'tx', 0), ('Notify', 4, 'tx', 0),
                    ('Drop', 0, '', 0), ('Notify', 3, 'tx', 0), ('Accept', 0, 'valid', 0), ('Ready', 3, '', 0), ('Notify', 2, 'tx', 0), ('Notify', 3, 'upd', 0),
                    ('Notify', 4, 'tx', 0), ('Notify', 3, 'insync', 0), ('Notify', 5, 'hdrs', 0)]),
+    # bursts: headers + tx + update + in-sync in one write, before the accept, after it, after a re-declared Ready and after a reconnect
+    ('bursts', 1, [('Burst', 7, '', 0), ('Accept', 0, 'valid', 0), ('Burst', 7, '', 0), ('Ready', 1, '', 0), ('Burst', 7, '', 0), ('Burst', 7, '', 0), ('Notify', 5, 'tx', 0),
+                   ('Drop', 0, '', 0), ('Accept', 0, 'valid', 0), ('Ready', 5, '', 0), ('Burst', 7, '', 0)]),
     # a time-out does not disturb the other pending call; the late answer is dropped
     ('timeout-isolated', 1, [('Accept', 0, 'valid', 0), ('Ready', 1, '', 0), ('Call', 0, 'GetTx', 1), ('Call', 1, 'GetHeader', 2), ('Respond', 1, 'ok', 0),
                              ('Timeout', 0, '', 0), ('Respond', 0, 'ok', 0), ('Call', 0, 'GetTx', 1), ('Respond', 0, 'ok', 0)]),
